@@ -198,6 +198,9 @@ func runC01(c *eng.Ctx) {
 		}
 	})
 
+	// ---- 2c. rollup: three ordered manifest commits (target output+references, source marks, target references dropped) -----------
+	c.Rule("ORDER", "kv.family.rollup{commit<clean references}", func() { rollupCommitBeforeClean(c) })
+
 	// ---- 3. compaction ---------------------------------------------------------------------------------------------
 	c.Rule("ORDER", cjT+"{close<register; merge(ok)<install; cleanup after install}", func() {
 		f := c.Fn(cjT + ".finishCompactionOutputFile")
